@@ -142,6 +142,18 @@ CHECKS['C09'] = dict(level=MC, ref='4 C09',
          'the relations. bounded: N=2..6, 5 families, single MPO and sums, D0 1..16, D_total 2/4/64, ncv 2/3/6, 1..4 sweeps with method switches; 48/700 runs + 24/350 convergence/penalty runs '
          '(real and complex couplings)',
     technique='TLA+ cache-coherence protocol (EnvCoherence) + sweep schedules (Sweeps) + TLC + trace validation of recorded real runs incl. exact schedule equality')
+CHECKS['C10'] = dict(level=MC, ref='4 C10',
+    text='Shares EnvCoherence / Sweeps with C09. Sweeps.tla writes _tdvp_sweep_1site_/2site_/12site_ as exact event sequences (12site threaded through the recorded enlarge_bond decisions, several '
+         'sweeps per run: 2nd order = 1 sweep per step, 4th order = 5); SweepsMC model-checks, for N<=4 x precompute and EVERY 12site decision sequence, that all Heff reads are fresh and that the '
+         'time budget of projector splitting holds (forward minus backward exponentials = 2 half steps per sweep, every site covered). Binding: real tdvp_ runs under the outside recorder; TraceEnv.tla '
+         'requires coherence of every environment instance (replayed in chunks through the protocol state), exact schedule equality, snapshots tiling the time grid with steps*dt = tf-ti and dt <= requested, and the '
+         'measured verdicts: norm and energy conserved (real time, time-independent Hermitian H), same charge sector, canonical form, unit norm with normalize, and on a maximal manifold equality with '
+         'expm(-u t H) psi0 for real / imaginary / complex u, 2nd and 4th order, and for H(t) = (1+t) H0 (midpoint rule exact).',
+    note='norm / energy / distance to scipy.linalg.expm reference are floating-point observations (1e-7..1e-8). "Maximal manifold" is decided by an independent path count (every admissible bond '
+         'sector has D_q >= min(L_q, R_q)); for 1site / 12site exactness is claimed only if every bond is one-sided (L_q <= R_q for all q, or >= for all q): otherwise projector splitting keeps an '
+         'O(dt^3) error although the manifold is the whole sector (mathematics of the method, see DESIGN.md). convergence ORDER for non-commuting time-dependent generators is not measured. runs that '
+         'take > 45 s (expmv caps ncv by the number of STORED elements, D=1 symmetric states make thousands of tiny steps) are skipped and counted. bounded: N=2..5, 5 families, 56/800 runs',
+    technique='TLA+ cache-coherence protocol (EnvCoherence) + TDVP sweep schedules incl. all 12site decision sequences (Sweeps, SweepsMC) + TLC + trace validation of recorded tdvp_ runs')
 NA = {}
 m = {"version": 1, "setup_cmd": "true",
      "hooks": {"guard": "YASTN_VERIF", "enable": "no source hooks so far: the harness wraps the public API from outside and imports yastn live from /repo (override: VERIF_REPO)",
